@@ -191,7 +191,7 @@ theorem content_commit_pages (r : Rg X) (n : Nat) :
   · rename_i h
     have : r.buf = [] := by simpa [List.isEmpty_iff] using h
     simp [this]
-  · simp [content_append, content]
+  · simp [content]
 
 theorem all_commit_pages (r : Rg X) (n : Nat) (h : ∀ p ∈ r.pages, p.1 = n) :
     (flushRg { r with ord := n, await := false }).pages.all (fun p => p.1 == n) = true := by
@@ -443,7 +443,7 @@ theorem sfills (s : S X) (i : Nat) (q p : List X) (h : s.pend[i]? = some q) :
     rw [set_same h]
   | cons x p ih =>
     simp only [List.map_cons, List.foldl_cons, sstep, h]
-    rw [ih _ (q ++ [x]) (by simp [List.getElem?_set, (List.getElem?_eq_some_iff.mp h).1])]
+    rw [ih _ (q ++ [x]) (by simp [(List.getElem?_eq_some_iff.mp h).1])]
     simp [List.set_set]
 
 theorem map_nil_set {l : List (List X)} {i : Nat} {a : List X} (h : l[i]? = some a) (b : List X) :
@@ -530,9 +530,9 @@ theorem step_fill_comm (restore : Bool) (w : W X) (i : Nat) (x : X) (e : Ev X) (
     simp only [step]
     cases hi : w.rgs[i]? <;> cases hj : w.rgs[j]? <;>
       simp [hi, hj, List.getElem?_set_ne hij, List.getElem?_set_ne (Ne.symm hij), List.set_comm _ _ hij]
-  | write y => simp only [step]; cases hi : w.rgs[i]? <;> simp [hi]
-  | flushOwn => simp only [step]; cases hi : w.rgs[i]? <;> simp [hi]
-  | wflush => simp only [step]; cases hi : w.rgs[i]? <;> simp [hi]
+  | write y => simp only [step]; cases hi : w.rgs[i]? <;> simp
+  | flushOwn => simp only [step]; cases hi : w.rgs[i]? <;> simp
+  | wflush => simp only [step]; cases hi : w.rgs[i]? <;> simp
 
 /-! ## The slip: line 1543 without the restore -/
 
